@@ -285,6 +285,9 @@ def config_facets(run):
         # single-fault invalid configurations
         faults = {
             "fractions do not sum to one": '[parameters]\nphase_assemblage = ["olivine", "enstatite"]\nphase_fractions = [0.7, 0.2]\n',
+            "fractions miss one by 1e-6": '[parameters]\nphase_assemblage = ["olivine", "enstatite"]\nphase_fractions = [0.333333, 0.666666]\n',
+            "fractions exceed one by 5e-6": '[parameters]\nphase_assemblage = ["olivine", "enstatite"]\nphase_fractions = [0.7, 0.300005]\n',
+            "fractions miss one by 1e-9": '[parameters]\nphase_assemblage = ["olivine", "enstatite"]\nphase_fractions = [0.5, 0.499999999]\n',
             "more phases than fractions": '[parameters]\nphase_assemblage = ["olivine", "enstatite"]\nphase_fractions = [1.0]\n',
             "more fractions than phases": '[parameters]\nphase_assemblage = ["olivine"]\nphase_fractions = [0.5, 0.5]\n',
             "unknown phase": '[parameters]\nphase_assemblage = ["quartz"]\nphase_fractions = [1.0]\n',
@@ -311,7 +314,7 @@ def config_facets(run):
                 pass
             except Exception as e:
                 badf.append(f"{lab}: {type(e).__name__}")
-        run.exact(f"parse_config: every single-fault invalid configuration raises ConfigError [{len(faults) + 3} classes]", fn, not badf, "; ".join(badf) or "all rejected")
+        run.exact(f"parse_config: every single-fault invalid configuration (near misses of the fraction sum included) raises ConfigError [{len(faults) + 3} classes]", fn, not badf, "; ".join(badf) or "all rejected")
     finally:
         os.chdir(cwd)
 
